@@ -34,10 +34,10 @@ CFG = {
                   "the offset on and clamps the offset after every scroll history - proved for all texts/widths/offsets. "
                   "widgets/scrollbar: bar inside the track for all valid positions; for ALL inputs only window rows are touched "
                   "and nothing is drawn when the content fits or a size is zero. vxfw/list Dynamic (after the repairs F119, "
-                  "F119b, F119c, F119d, F119f in /repo): layout (order, contiguity with the gap, heights, no overlap) proved for "
+                  "F119b, F119c, F119d, F119f, F119g in /repo): layout (order, contiguity with the gap, heights, no overlap) proved for "
                   "one Draw from ANY state and ANY gap; no panic, 'selected item visible after SetCursor/NextItem/PrevItem + "
                   "Draw', and 'top/offset anchored on the child covering row 0' proved for ALL gaps >= 0 and ALL histories "
-                  "including replacement of the Builder's items (visibility even from any state); the surface returned has "
+                  "including replacement of the Builder's items (visibility even from any state, with any scroll pending); the surface returned has "
                   "the size of the max constraint.",
     "level_note": "Proved for all inputs/histories: simple_list_safe, simple_list_selected_visible, simple_list_rows_in_order, "
                   "pager_complete, pager_offset_clamped, pager_scroll_history, pager_draw_rows, pager_row_keeps_characters "
